@@ -539,7 +539,7 @@ Fails(step, g, g2, cs) == {c \in cs \cap ClauseIds : ~Holds(c, step, g, g2)}
 (* instance only the transitions in which such a situation occurs are handed to the real code.  They are the  *)
 (* situations that a uniform sample of a large instance, or a random generator, reaches too rarely.           *)
 GoalNames == {"rematch_after_empty_round", "empty_round_after_match", "rate_boundary", "cap_with_other_auction",
-              "two_settle_in_block", "exact_remaining", "bid_on_sold_out", "nothing_sold_early_settle"}
+              "two_settle_in_block", "exact_remaining", "bid_on_sold_out", "nothing_sold_early_settle", "overdemand_with_surplus"}
 Goal(n, step, g) ==
   LET pre == step.pre
       m   == step.act
@@ -573,5 +573,8 @@ Goal(n, step, g) ==
          \E i \in 1..nA : /\ Closing(i) /\ RoundsLeft(i) /\ g.prevM[i] > 0 /\ Len(pre.bids[i]) > 0
                            /\ ~ExtendDecision(pre.auctions[i], g.prevM[i], Cur(i))
                            /\ Clearing(pre.bids[i], pre.allowed[i], pre.auctions[i].sellAmt).total = 0
+    [] n = "overdemand_with_surplus" ->   \* a batch auction is matched while its selling escrow holds donated coins and the book asks for more than is offered
+         \E i \in 1..nA : /\ Closing(i) /\ g.don[SellAcc(i - 1)][pre.auctions[i].sellDenom] > 0
+                           /\ AllTotal(pre.bids[i], pre.auctions[i].payDenom) > pre.auctions[i].sellAmt
     [] OTHER -> FALSE
 =============================================================================
